@@ -79,6 +79,72 @@ def grep_forbidden():
     return hits
 
 
+THEOREM_FUNCS = {
+    "toggleDisplay_eq": ["toggleDisplayBody"], "getState_eq": ["getStateBody"], "getEnergy_eq": ["getEnergyBody"],
+    "getHumidity_eq": ["getHumidityBody"], "getCapabilities_eq": ["getCapabilitiesBody"], "setStateBody_eq": ["setStateBody"],
+    "parseTemperature_eq_nat": ["parseTemperature"], "indoor_eq": ["parseTemperature"], "outdoor_eq": ["parseTemperature"],
+    "parseState_eq": ["parseState"], "crc_step_u8": ["crc8Calculate"], "crc_fold": ["crc8Calculate"],
+    "crc8Calculate_eq": ["crc8Calculate"], "checksum_eq": ["checksum"], "checksum_range": ["checksum"],
+    "frameTobytes_eq": ["frameTobytes"], "frameValidate_eq": ["frameValidate"], "commandPayload_eq": ["commandPayload"],
+    "commandToBytes_eq": ["commandPayload", "frameTobytes"], "applyCommand_eq": ["applyCommand"],
+    "applyThenTobytes_eq": ["applyCommand", "setStateBody"], "buildHeader_eq": ["buildHeader"],
+    "encodeHandshakeRequest_eq": ["encodeHandshakeRequest"], "encodeEncryptedRequest_eq": ["encodeEncryptedRequest"],
+    "decodeHandshakeResponse_eq": ["decodeHandshakeResponse"], "decodeEncryptedResponse_eq": ["decodeEncryptedResponse"],
+    "processPacket_eq": ["processPacket"], "getLocalKey_eq": ["getLocalKey"], "packetEncode_eq": ["packetEncode"],
+    "packetDecode_eq": ["packetDecode"],
+}
+ALL_TRANSLATED = sorted({f for fs in THEOREM_FUNCS.values() for f in fs})
+
+
+def _functions_of_errors(build_output):
+    """which translated functions the failing equivalence theorems of Lemmas/CodecEq*.lean are about; None if an error
+    cannot be attributed (then every function falls back)"""
+    funcs = set()
+    found = False
+    for m in re.finditer(r"error: (Msmart/Lemmas/CodecEq(?:Lan)?\.lean):(\d+):", build_output):
+        found = True
+        path, line = os.path.join(LEAN, m.group(1)), int(m.group(2))
+        try:
+            lines = open(path).read().split("\n")
+        except OSError:
+            return None
+        name = None
+        for k in range(min(line, len(lines)) - 1, -1, -1):
+            mm = re.match(r"theorem (\w+)", lines[k])
+            if mm:
+                name = mm.group(1)
+                break
+        if name not in THEOREM_FUNCS:
+            return None
+        funcs.update(THEOREM_FUNCS[name])
+    return sorted(funcs) if found else None
+
+
+def settle_translation(res):
+    """The translation tie is opportunistic (DESIGN 3.1b): `Generated/Codec.lean` has just been regenerated; if an equality
+    `translated = model` of Lemmas/CodecEq*.lean does not check for the new text of a function, that function falls back to
+    the correspondence tie (it is emitted as an alias of the model, exactly like a function outside the translator's
+    subset), the reason is recorded, and the checks of the properties it serves run their thorough generators.  A failing
+    equality is therefore never reported by itself - a semantic change shows up in the correspondence / oracle."""
+    unproved = []
+    for attempt in range(3):
+        rc, out = sh(["lake", "build", "Msmart.Lemmas.CodecEqLan"], cwd=LEAN, timeout=1800)
+        if rc == 0:
+            break
+        funcs = _functions_of_errors(out)
+        if funcs is None or attempt == 2:
+            funcs = ALL_TRANSLATED
+        unproved = sorted(set(unproved) | set(funcs))
+        env = dict(os.environ, PYTRANS_UNPROVED=",".join(unproved))
+        rc2, out2 = sh(["/venv/bin/python", os.path.join(HERE, "extract.py")], cwd=VERIF, timeout=300, env=env)
+        try:
+            res["generated"] = json.loads(out2.strip().split("\n")[-1])
+        except Exception:
+            pass
+    res["translation_unproved"] = unproved
+    return unproved
+
+
 def regenerate_and_build(pid, log, tier="quick"):
     """Returns dict: generated (extract output), driver_ok, props_ok, build_log, theorems {name: axioms|None}"""
     res = {"driver_ok": False, "props_ok": False, "build_log": "", "theorems": {}, "generated": {},
@@ -91,6 +157,7 @@ def regenerate_and_build(pid, log, tier="quick"):
             res["generated"] = json.loads(out.strip().split("\n")[-1])
         except Exception:
             res["generated"] = {"error": out[-2000:]}
+        settle_translation(res)
         rc, out = sh(["lake", "build", "msmart_driver"], cwd=LEAN, timeout=1800)
         res["driver_ok"] = (rc == 0)
         if rc != 0:
